@@ -1356,7 +1356,23 @@ class FnTr:
         if mode in ("if_condition", "closure_arg"):
             return self.emit_fragment(mode, params, extra)
         stmts, tail = fn["body"][1], fn["body"][2]
-        if mode == "tail_if_condition":
+        self.before_loop = False
+        if mode == "before_loop":
+            # only the statements before the first loop: `some r` = returned r before the loop, `none` = loop reached
+            idx = next((i for i, st in enumerate(stmts) if st[0] == "expr" and st[1][0] in ("while", "loop", "for")), None)
+            if idx is None:
+                self.fail("mode before_loop: the body has no loop statement")
+            stmts = stmts[:idx]
+            if self.assigned(("block", stmts, None), env):
+                self.fail("mode before_loop: the statements before the loop assign to outer state")
+            self.dropped.append("the loop and everything after it (only the early-return prefix is translated)")
+            if self.self_kind == "mut":
+                self.self_kind = "ref"
+                lret = a.lean_ty(ret_ty, self.self_ty)
+            lret = f"Option {self.par(lret)}"
+            self.before_loop = True
+            body = self.stk(stmts, None, env, lambda env2, _v: "none")
+        elif mode == "tail_if_condition":
             last = tail if tail is not None else (stmts[-1][1] if stmts and stmts[-1][0] == "expr" else None)
             if last is None or last[0] != "if" or last[3] is not None or last[1][0] == "let":
                 self.fail("mode tail_if_condition: the body does not end in an `if` without `else`")
@@ -1429,6 +1445,8 @@ class FnTr:
         val = v.lean if v is not None else "()"
         if self.cas:
             return f".done {self.par(val)}"
+        if getattr(self, "before_loop", False):
+            return f"some {self.par(val)}"
         if getattr(self, "mutref", None):
             outs = [env[m][0] for m in self.mutref] + ([val] if self.fn["ret"] is not None else [])
             return outs[0] if len(outs) == 1 else "(" + ", ".join(outs) + ")"
